@@ -41,7 +41,7 @@ class SimLine:
         for dly, piece in pieces:
             t = max(self.last_deliver[src], k.now + dly)
             self.last_deliver[src] = t
-            k.schedule(t - k.now, self._deliver, self.other(src), piece)
+            k.schedule_at(t, self._deliver, self.other(src), piece)
 
     def _deliver(self, dst, piece):
         port = self.ports.get(dst)
